@@ -37,7 +37,7 @@ Definition spec_dirs (dir : path) (e : layer_env) : list path :=
   flat_map (fun pd => if delta_is_empty (snd pd) then [] else [dir ++ [n_env_launch; fst pd]]) (le_process e).
 
 Definition file_content (o : option node) : option bytes :=
-  match o with Some (File _ c) => Some c | _ => None end.
+  match o with Some (File _ (Raw c)) => Some c | _ => None end.
 
 (* exactly the prescribed files and directories below the three roots *)
 Definition layout_exact (dir : path) (e : layer_env) (post : fs) : bool :=
